@@ -69,6 +69,14 @@ META = {
         "note": "Reachable = produced by the harness's legitimate transitions only (no constructed pods); same bounds as C03.",
         "technique": "stateful property-based testing (rapid) with per-write invariant monitor + fixed-point census",
     },
+    "C10": {
+        "text": "Every write of every reconcile over populations that cross all owner / label / name / terminating combinations (pods and revisions, incl. a "
+                "second set with an overlapping selector and a stale cached set) is classified against the snapshot; cache objects are compared with "
+                "deep copies taken before the reconcile. Found and repaired the missing owner filter on revisions.",
+        "design_ref": "DESIGN.md section 3, C10",
+        "note": "See assumptions in the evidence file: marker revisions, non-canonical pod names and identical-data name collisions are not judged.",
+        "technique": "stateful property-based testing (rapid) with per-reconcile write classification against a membership model",
+    },
 }
 
 _pending = "check not built yet in this round of the build; planned per DESIGN.md section 3 (generated-input search applies)"
